@@ -445,6 +445,33 @@ def main(ctx: Ctx) -> int:
                 except Exception as ex:  # noqa
                     ke["ok"], ke["err"] = False, f"{type(ex).__name__}: {str(ex)[:100]}"
                 ev.append(ke)
+        if ti % (2 if ctx.quick else 4) == 1 and net.reaction_list:
+            # beyond the listed properties: the UCLCHEM copy (Network.write(..., "uclchem") writes reaction by reaction with this formatter); the
+            # reactions the formatter accepts are read back by the UCLCHEM reader: species with multiplicity and the window (printed in full)
+            ue = {"act": "UclchemCopy", "written": [], "same_species": [], "same_window": [], "err": "", "detail": []}
+            for x in net.reaction_list:
+                okw = sp = wn = False
+                try:
+                    line = f"{x:uclchem}"
+                    okw = True
+                    (d / "u.ucl").write_text(line + "\n")
+                    back = Network(filelist=str(d / "u.ucl"), fileformats="uclchem").reaction_list
+                    if len(back) == 1:
+                        y = back[0]
+                        sp = sorted(s_.name for s_ in x.reactants) == sorted(s_.name for s_ in y.reactants) and \
+                            sorted(s_.name for s_ in x.products) == sorted(s_.name for s_ in y.products)
+                        wn = float(x.temp_min) == float(y.temp_min) and float(x.temp_max) == float(y.temp_max)
+                        if not (sp and wn) and len(ue["detail"]) < 3:
+                            ue["detail"].append(f"{[s_.name for s_ in x.reactants]} -> {[s_.name for s_ in x.products]} [{x.temp_min}, {x.temp_max}) type {x.reaction_type.name} "
+                                                f"written `{line}` read back {[s_.name for s_ in y.reactants]} -> {[s_.name for s_ in y.products]} [{y.temp_min}, {y.temp_max})")
+                    elif len(ue["detail"]) < 3:
+                        ue["detail"].append(f"`{line}` read back as {len(back)} reactions")
+                except Exception as ex:  # noqa
+                    ue["err"] = ue["err"] or f"{type(ex).__name__}: {str(ex)[:80]}"
+                ue["written"].append(okw)
+                ue["same_species"].append(sp)
+                ue["same_window"].append(wn)
+            ev.append(ue)
         traces.append({"tid": ti + 1, "net": header, "pr": [[k, v] for k, v in pr.items()], "ev": ev, "origin": origin})
     xt = export_cases(ctx, rng, 3 if ctx.quick else 40, len(traces))
     cov["exported_projects_rerendered_in_a_fresh_process"] = len(xt)
@@ -462,8 +489,12 @@ def main(ctx: Ctx) -> int:
             kn[clause_] = kn.get(clause_, 0) + 1
             if kn[clause_] <= 2:
                 e_ = byt[tid_]["ev"][max(0, min(l_, len(byt[tid_]["ev"])) - 1)]
-                ctx.notes.append(f"beyond the listed properties: {clause_} fails for the KROME copy of a {byt[tid_]['origin']} network: {e_.get('err') or e_.get('recs', [])[:1]}")
-    cov["krome_copy_mismatches_beyond_listed_properties"] = kn
+                ctx.notes.append(f"beyond the listed properties: {clause_} fails for the {'UCLCHEM' if clause_.startswith('Uclchem') else 'KROME'} copy of a "
+                                 f"{byt[tid_]['origin']} network: {(e_.get('detail') if clause_ not in ('UclchemCopy:Written',) else None) or e_.get('err') or e_.get('recs', [])[:1]}")
+    cov["krome_copy_mismatches_beyond_listed_properties"] = {k_: v_ for k_, v_ in kn.items() if not k_.startswith("Uclchem")}
+    cov["uclchem_copies_read_back"] = sum(1 for t in traces for e in t["ev"] if e["act"] == "UclchemCopy")
+    cov["uclchem_copy_reactions_written"] = sum(sum(e["written"]) for t in traces for e in t["ev"] if e["act"] == "UclchemCopy")
+    cov["uclchem_copy_mismatches_beyond_listed_properties"] = {k_: v_ for k_, v_ in kn.items() if k_.startswith("Uclchem")}
     by = {t["tid"]: t for t in traces}
     for tid, rj in sorted(v["rejected"].items()):
         clause = (rj["clauses"] or ["NoEnabledAction"])[0]
